@@ -51,6 +51,14 @@ theorem append_keeps {α : Type} (p : α → Prop) (xs ys : List α)
   | inl h => exact hx x h
   | inr h => exact hy x h
 
+/-- an accumulator that is only appended to is the initial value followed by the collected items
+    (the fold rule hands such loops to the foreach abstraction). -/
+theorem foldl_append {α β : Type} (g : α → List β) (xs : List α) (init : List β) :
+    xs.foldl (fun acc x => acc ++ g x) init = init ++ xs.flatMap g := by
+  induction xs generalizing init with
+  | nil => simp
+  | cons x xs ih => simp [List.foldl_cons, ih, List.flatMap_cons, List.append_assoc]
+
 /-! ### C11: find-all of a compound query is the list of values of its find-iter
 
 `specs/compound.py` states the compound semantics twice, over values (`compound_values`) and over
